@@ -188,6 +188,13 @@ def step (s : St) (line : String) : St × String :=
     let i : Cmds.CommitIn := ⟨entriesIn ix, (if sn == "none" then none else some (entriesIn sn)), opt br, anyB == "1",
       opt cl, opt cg, intOf unix, intOf off, unhex msg⟩
     (s, resOut (fun r => hexOut r.1) (Cmds.commitCmd sha1Fn i))
+  | ["cmd.log", anyB, hd, k, objs] =>
+    let tbl : List (Bytes × Bytes) := (if objs == "-" then [] else objs.splitOn ";").filterMap fun x =>
+      match x.splitOn "=" with
+      | [i, c] => some (unhex i, unhex c)
+      | _ => none
+    let st : Store := fun i => (tbl.find? (fun p => p.1 == i)).map (·.2)
+    (s, resOut (fun l => listOut (l.map hexOut)) (Cmds.logCmd H st (anyB == "1") (unhex hd) (intOf k)))
   | ["cmd.reset", so, mi, ha, arg, lg, sn, ix] =>
     let snaps : List (Bytes × List Entry) := (if sn == "-" then [] else sn.splitOn ";").filterMap fun x =>
       match x.splitOn "=" with
